@@ -118,6 +118,11 @@ class Dataset:
         if len(rankings) == 0:
             raise EmptyDatasetException("There must be at least one ranking")
 
+        # the mappings are rebuilt from scratch: after a removal of elements, no id (nor any element whose type
+        # changed because the remaining names are all integers) of the previous analysis must remain
+        self._mapping_element_id = {}
+        self._mapping_id_element = {}
+
         # check if all elements are integers. If yes, all str are converted to integers
         rankings_final: List[Ranking] = []
 
